@@ -11,6 +11,7 @@ from __future__ import annotations
 import hashlib
 import itertools
 import json
+import re
 import math
 
 import yaml
@@ -60,7 +61,7 @@ def _emit_section(name, body, style):
     return out
 
 
-def handwritten(subset, spelling, style, comments, extra, final_nl, docstart):
+def handwritten(subset, spelling, style, comments, extra, final_nl, docstart, null=None):
     lines = []
     if docstart:
         lines.append("---")
@@ -79,7 +80,11 @@ def handwritten(subset, spelling, style, comments, extra, final_nl, docstart):
         nm = name.replace("-", "_") if spelling == "underscore" else name
         if comments:
             lines.append(f"# tuned {name} by hand")
-        lines += _emit_section(nm, SECTIONS[name], style)
+        if name == null:
+            # a section that is present but holds nothing (all its settings commented out)
+            lines += [f"{nm}:"] + [f"  # {k}: {json.dumps(v)}" for k, v in SECTIONS[name].items()]
+        else:
+            lines += _emit_section(nm, SECTIONS[name], style)
         if comments:
             lines.append("")
     if extra:
@@ -106,6 +111,9 @@ def all_shapes():
                 if not subset and not extra:
                     continue  # an empty / marker-only file is not "an existing valid configuration"
                 yield {"subset": list(subset), "spelling": spelling, "style": style, "comments": comments, "extra": extra, "final_nl": final_nl, "docstart": docstart}
+                if style == "block" and final_nl and not docstart:
+                    for null in subset:
+                        yield {"subset": list(subset), "spelling": spelling, "style": "block", "comments": comments, "extra": extra, "final_nl": True, "docstart": False, "null": null}
 
 
 SET_MENU = [
@@ -118,7 +126,19 @@ SET_MENU = [
     ("app_name", "demo"), ("app_name", ""), ("app_name", "   "),
     ("output_format", "json"), ("output_format", "xml"),
     ("new_key", "v1"),
+    # values the command line converts to something falsy, and non-finite numbers
+    ("log_level", "false"), ("log_level", "0"), ("log_level", ""), ("output_format", "false"), ("output_format", "0.0"), ("output_format", ""),
+    ("timeout", "inf"), ("timeout", "nan"), ("max_retries", "0"), ("max_retries", "true"),
 ]
+
+# the documented domains of the two enumerated settings (the tool's own error messages name them;
+# the numeric settings are left to the implementation's validator: whether nan or true is `a
+# positive number` / `a non-negative integer` is not something the statement decides); kept here, independent of the
+# implementation's validator, so that a weakened validator cannot vouch for itself
+DOMAIN = {
+    "log_level": lambda v: isinstance(v, str) and v in ("DEBUG", "INFO", "WARNING", "ERROR", "CRITICAL"),
+    "output_format": lambda v: isinstance(v, str) and v in ("text", "json", "yaml"),
+}
 
 
 # ------------------------------------------------------------------ helpers
@@ -216,6 +236,11 @@ def t_init(acc: Acc, root, preset: str, force: bool, hist):
         acc.nt((_h(before), cmd))
         shape = hist.get("shape_sig", {})
         # (a) result is valid YAML
+        tops = re.findall(r"^([A-Za-z_][\w-]*)\s*:", (after or b"").decode("utf-8", "replace"), flags=re.M)
+        dup = sorted({t for t in tops if tops.count(t) > 1})
+        if dup and _valid_mapping(after) and not (after or b"").lstrip().startswith(b"{"):
+            # YAML requires mapping keys to be unique; safe_load silently keeps the last one
+            acc.fail({"inv": "merge-result-valid-yaml", "why": "duplicate-top-level-key", **shape}, case, "unique top-level keys", dup)
         if not _valid_mapping(after):
             acc.fail({"inv": "merge-result-valid-yaml", **shape}, case, "a YAML mapping", (after or b"")[:300].decode("utf-8", "replace"), f"exit={r['exit_code']} {r['stderr'][-200:]}")
         else:
@@ -301,6 +326,8 @@ def t_set(acc: Acc, root, key: str, value: str, hist):
         if not ok:
             acc.fail({"inv": "written-config-valid", **sig_v}, case, "valid", errs)
         v0 = cfg.get(key)
+        if key in DOMAIN and not DOMAIN[key](v0):
+            acc.fail({"inv": "accepted-value-outside-documented-domain", "key": key, "value_class": "falsy" if not v0 else ("non-finite" if isinstance(v0, float) else "other")}, case, f"a documented value for {key}", repr(v0))
         for ext in (".yaml", ".json"):
             tmp = root / f"rt{ext}"
             save_config(cfg, tmp)
@@ -342,6 +369,8 @@ def items(tier: str, seed: int):
             out.append({"kind": "bfs", "rep": rep, "first": first, "depth": depth})
     out.append({"kind": "default-location"})
     out.append({"kind": "empty-configs"})
+    out.append({"kind": "edited-generated"})
+    out.append({"kind": "banner-layouts"})
     return out
 
 
@@ -380,10 +409,10 @@ def run_item(item) -> Acc:
     k = item["kind"]
     if k == "shapes":
         for sh in item["shapes"]:
-            text = handwritten(sh["subset"], sh["spelling"], sh["style"], sh["comments"], sh["extra"], sh["final_nl"], sh["docstart"])
+            text = handwritten(sh["subset"], sh["spelling"], sh["style"], sh["comments"], sh["extra"], sh["final_nl"], sh["docstart"], sh.get("null"))
             init = text.encode()
             assert _valid_mapping(init), text
-            shape_sig = {"style": sh["style"]}
+            shape_sig = {"style": sh["style"] + ("+empty-section" if sh.get("null") else "")}
             # sequences: init(p) ; init(p) then init(q) ; set then init ; (depth 3: set, init, init)
             seqs = [[("init", p, False)] for p in PRESETS]
             seqs += [[("init", "standard", False), ("init", "strict", False)]]
@@ -420,6 +449,58 @@ def run_item(item) -> Acc:
             frontier = nxt
         acc.stat("bfs_distinct_states", len(seen))
         acc.sample({"bfs_from": item["rep"], "first_command": list(menu[item["first"]]), "depth": item["depth"], "distinct_file_states": len(seen)})
+    elif k == "edited-generated":
+        # a generated file in which the user then emptied one section (commented its settings out)
+        for p_ in PRESETS:
+            _write(root, None)
+            obs.cli_inproc(["init-config", "--non-interactive", "--preset", p_, "--output", F], root)
+            gen = (_read(root) or b"").decode()
+            tops = [ln.split(":")[0] for ln in gen.split("\n") if ln and not ln[0].isspace() and not ln.startswith("#") and ln.rstrip().endswith(":")]
+            for sec in tops:
+                out, inside = [], False
+                for ln in gen.split("\n"):
+                    if ln.startswith(sec + ":"):
+                        inside = True
+                        out.append(ln)
+                        continue
+                    if inside and ln and not ln[0].isspace() and not ln.startswith("#"):
+                        inside = False
+                    out.append(("  # " + ln.strip()) if inside and ln.strip() and not ln.strip().startswith("#") else ln)
+                init = "\n".join(out).encode()
+                if not _valid_mapping(init):
+                    continue
+                for q_ in PRESETS:
+                    _write(root, init)
+                    hist = {"initial": init, "cmds": [], "shape_sig": {"style": "generated+emptied-section"}, "skip_accept": True}
+                    hist["cmds"].append(_apply(acc, root, ("init", q_, False), hist))
+                    hist["cmds"].append(_apply(acc, root, ("init", q_, False), hist))
+    elif k == "banner-layouts":
+        # hand-kept sections above AND below the generated GLOBAL SETTINGS banner; below it one
+        # section may be present but empty
+        _write(root, None)
+        obs.cli_inproc(["init-config", "--non-interactive", "--preset", "standard", "--output", F], root)
+        gen = (_read(root) or b"").decode().split("\n")
+        at = next((i for i, ln in enumerate(gen) if "GLOBAL SETTINGS" in ln), None)
+        if at is None:
+            acc.stat("no_global_settings_banner_in_generated_file")
+        else:
+            start = at - 1 if at > 0 and gen[at - 1].startswith("# ==") else at
+            tail = [ln for ln in gen[start:] if ln.strip()]
+            above = _emit_section("magic-numbers", SECTIONS["magic-numbers"], "block")
+            for below_null in (None, "nesting", "dry"):
+                for order in (("dry", "nesting"), ("nesting", "dry")):
+                    below = []
+                    for nm in order:
+                        below += ([f"{nm}:"] + [f"  # {k_}: {json.dumps(v)}" for k_, v in SECTIONS[nm].items()]) if nm == below_null else _emit_section(nm, SECTIONS[nm], "block")
+                    init = ("\n".join(above + [""] + tail + ["", "# local overrides"] + below) + "\n").encode()
+                    if not _valid_mapping(init):
+                        acc.stat("banner_layout_not_valid_yaml")
+                        continue
+                    for q_ in PRESETS:
+                        _write(root, init)
+                        hist = {"initial": init, "cmds": [], "shape_sig": {"style": "sections-around-generated-banner" + ("+empty-section" if below_null else "")}, "skip_accept": True}
+                        hist["cmds"].append(_apply(acc, root, ("init", q_, False), hist))
+                        hist["cmds"].append(_apply(acc, root, ("init", q_, False), hist))
     elif k == "empty-configs":
         # an existing configuration that is valid YAML but holds no setting yet
         for text in EMPTY_SHAPES:
